@@ -15,7 +15,7 @@ import numpy as np
 from genjax import gen, normal, seed, sel, const
 from genjax.core import distribution
 from genjax.inference.mcmc import chain, mh
-from genjax.state import save
+from genjax.state import save, namespace
 
 tape = distribution(lambda t, p: t, lambda v, t, p: -jnp.abs(v - p), name="tape")
 
@@ -43,7 +43,12 @@ def make_kernel(kind, extra):
         args = trace.get_args()
         new_trace, _, _ = model.update(trace, {"x": newx}, *args[0], **args[1])
         final = jtu.tree_map(lambda a, b: jax.lax.select(acc, a, b), new_trace, trace)
-        if extra:
+        if extra == 2:
+            # a composite kernel: the step's own accept at the root, then a namespaced sub-move's diagnostic
+            # that is also called accept (and differs)
+            save(accept=acc)
+            namespace(lambda: save(accept=jnp.logical_not(acc), extra=x * 2.0), "sub_move")()
+        elif extra:
             save(accept=acc, extra=x * 2.0)
         else:
             save(accept=acc)
@@ -76,7 +81,7 @@ def main():
         grid = rng.sample(grid, 40)
     for (n, burn, thin) in grid:
         kind = rng.randrange(3)
-        extra = rng.random() < 0.4
+        extra = rng.choice([0, 0, 0, 1, 1, 2])
         nch = rng.choice([1, 1, 3]) if tier == "quick" else rng.choice([1, 3])
         init = rng.randint(0, 12)
         tr0 = model.simulate(jnp.float32(init))
